@@ -6,6 +6,81 @@ from .. import grammar
 from ..grammar import fmt_tok
 
 
+WIDTH = {"u8": 1, "i8": 1, "u16": 2, "i16": 2, "u24": 3, "i24": 3, "u32": 4, "i32": 4, "u64": 8, "i64": 8, "f64": 8, "f32": 4}
+
+
+def field_index(prog, pretty, name):
+    for k, a in prog.adts.items():
+        if a["pretty"] == pretty:
+            for i, f in enumerate(a["variants"][0]["fields"]):
+                if f["name"] == name:
+                    return i
+    return None
+
+
+def refusals(env, rep, m):
+    """R4: classify every Err path of every stage function by what the path state proves about the input"""
+    from ..absint import Dom
+    prog = env.prog
+    DES, HDR = "chunk_io::deserializer::ChunkDeserializer", "chunk_io::chunk_header::ChunkHeader"
+    hi, pi, phi = field_index(prog, DES, "current_header"), field_index(prog, DES, "current_payload_data"), field_index(prog, DES, "previous_headers")
+    mli = field_index(prog, HDR, "message_length")
+    if None in (hi, pi, phi, mli):
+        rep.anchor_missing("C06.R4", "fields current_header.message_length / current_payload_data / previous_headers of the deserializer")
+        return
+
+    def is_prev_headers(x):
+        return isinstance(x, tuple) and x[0] == "ld" and x[1][1] and x[1][1][-1][0] == "f" and x[1][1][-1][2] == "previous_headers"
+
+    def probe(it, S):
+        selfv = S.read((it.L(1), ()))
+        sloc = it.target(selfv)
+        ml = S.read((sloc[0], sloc[1] + (("f", hi, "current_header"), ("f", mli, "message_length"))))
+        pl = S.read((sloc[0], sloc[1] + (("f", pi, "current_payload_data"), ("len",))))
+        shorter = bool(S.prove_le(("cast", "usize", ml), pl, -1) or S.prove_le(ml, pl, -1))
+        no_prev = False
+        for sv, d in S.doms.items():
+            if isinstance(sv, tuple) and sv[0] == "discr" and isinstance(sv[1], tuple) and sv[1][0] == "model" and str(sv[1][1]).startswith("HashMap::") \
+                    and contains(sv[1][2], is_prev_headers) and d.lo == d.hi == 0:
+                no_prev = True
+        return (shorter, no_prev)
+    n_err, n_fn = 0, 0
+    for s_, ck in sorted(m.stage_fn.items()):
+        b = prog.bodies[ck]
+        n_fn += 1
+        ex = grammar.trace(env, ck, "r", probe=probe)
+        if ex.truncated:
+            rep.cannot_analyse("C06.R4", b.pretty, "too many paths in %s" % b.pretty, b.span)
+            continue
+        seen = set()
+        for p in ex.paths:
+            if not p or p[-1] != ("end", "err"):
+                continue
+            pr = [t for t in p if t[0] == "probe"]
+            shorter, no_prev = pr[-1][1] if pr else (False, False)
+            decisions = tuple(fmt_tok(t) for t in p if t[0] == "when")
+            kind = "shorter-than-held" if shorter else "no-previous-header" if no_prev else "other"
+            if kind == "other":
+                # the error of a typed read from bytes that were just taken out of the buffer: cannot occur when the bytes taken
+                # cover the widths read (reading from memory has no other failure)
+                whens = [t for t in p if t[0] == "when"]
+                taken = sum(int(t[2]) for t in p if t[0] == "take" and str(t[2]).isdigit())
+                widths = [WIDTH.get(re.sub(r"(be|le)$", "", t[1])) for t in p if t[0] == "read"]
+                if whens and re.match(r"^discr\(call\(ReadBytesExt::read_\w+\)\)$", whens[-1][1]) and whens[-1][2] == "1" and widths and None not in widths and sum(widths) <= taken:
+                    kind = "read-from-held-bytes"
+            if (kind, decisions) in seen:
+                continue
+            seen.add((kind, decisions))
+            n_err += 1
+            fname = b.pretty.split("::")[-1]
+            rep.check("C06.R4", "%s|refusal:%s" % (fname, kind), kind != "other",
+                      "%s: error path %s" % (fname, {"shorter-than-held": "taken only when the announced message length is smaller than the bytes already held", "no-previous-header": "taken only when there is no previous header for the chunk stream of a compressed header",
+                                                 "read-from-held-bytes": "is the failure branch of a typed read over bytes just taken from the buffer (%d byte(s) taken cover the read), which cannot fail" % (taken if kind == "read-from-held-bytes" else 0)}.get(kind, "")),
+                      "%s returns an error on a path that is neither 'compressed header without a previous header on that chunk stream' nor 'announced length < bytes already held': "
+                      "decisions on the path: %s (a conformant chunk, e.g. an empty message or the last byte of a message, would be refused)" % (fname, " ".join(decisions)[:400]), b.span)
+    rep.floor("C06.R4", "stage functions whose refusals were classified", n_fn, 5)
+
+
 def run(env, rep):
     rep.explanation = (
         "R1: the reader's typed reads per header format (stage functions analysed under format = F, in the order of the extracted "
@@ -13,8 +88,10 @@ def run(env, rep):
         "extended-timestamp predicate and the format-bit table; R2: the three basic-header forms consume 1/2/3 bytes and yield "
         "chunk stream ids in [2,63] / [64,319] / [64,65599]; R3: non-Full formats take their working header from the per-csid map "
         "under the csid just parsed, the finished chunk's header goes back under its own csid, format 0 sets and the other formats "
-        "add the timestamp, and a type-3 header re-applies the delta only at the first chunk of a message.  Not decided: the decoding "
-        "function over all legal encodings.")
+        "add the timestamp, and a type-3 header re-applies the delta only at the first chunk of a message; R4: the only inputs a stage "
+        "of the reader refuses (returns Err for) are a compressed header on a chunk stream without a previous header and an announced "
+        "message length smaller than the bytes already held for that message (strictly) - every other chunk, including an empty "
+        "message, is accepted.  Not decided: the decoding function over all legal encodings.")
     spec = chunk.load_spec()
     m = chunk.ChunkModel(env, rep, "C06.anchors")
     if not m.ok:
@@ -109,11 +186,15 @@ def run(env, rep):
         if not rets or "Success" not in rets[-1][1]:
             continue
         st = [t for t in sp if t[0] == "store" and t[1] == "current_header"]
-        fmt_dec = [t for t in sp if t[0] == "when" and t[1] == "discr(call(deserializer::get_format))"]
-        if not st or not fmt_dec:
+        fmts = chunk.discr_set_on_path(sp, "call(deserializer::get_format)", range(len(m.variants)))
+        if not st or fmts is None:
             continue
         n_in += 1
-        full = fmt_dec[-1][2] == "0"
+        full_no = [vi for vi, vn in enumerate(m.variants) if fmt_no.get(vn) == 0]
+        full = bool(full_no) and fmts == {full_no[0]}
+        if not full and full_no and full_no[0] in fmts:
+            inherit_ok = False
+            why.append("a path sets the working header up without deciding whether the header is Full")
         val = st[-1][2]
         if full:
             if not re.match(r"^ChunkHeader\(call\(deserializer::get_csid\) as Value\.val, ", val):
@@ -144,6 +225,7 @@ def run(env, rep):
                 ins_ok = False
         rep.check("C06.R3", "inherit:store-under-own-csid", ins_ok and n_ins >= 2, "after each chunk the working header is stored under its own chunk stream id (%d paths)" % n_ins,
                   "the payload stage does not put the working header back into previous_headers under its own csid on every path", pd.span)
+    refusals(env, rep, m)
     chunk.timestamp_semantics_reader_only(m, rep, "C06.R3")
     # type-3 delta only on the first chunk of a message
     ok3, n3 = False, 0
